@@ -567,6 +567,26 @@ def array_rules(rep):
         ok = got == w
         rep.ob(f"AR {name}: per row, the value of the Kindergeld recipient's row (join contract J4), default if there is none", "discharged" if ok else "refuted", "abstract-exec", 0, mod, "kernel-term", f"got {got}")
         rep.functions.add(f"{mod}.{name}")
+        # AR-T: the declared element type (the annotation is what converts a SUPPLIED column, C05) is the
+        # element type of what the rule returns: the type of the looked-up column for a join, bool for a
+        # comparison
+        def _elem(ann):
+            if ann in (float, int, bool):
+                return ann.__name__
+            t = str(ann)
+            return next((k for k in ("float", "int", "bool") if t.endswith(f"[{k}]") or t == k or t.endswith(f"'{k}'>]")), None)
+
+        anns = getattr(f, "__annotations__", {})
+        if isinstance(w, tuple) and w[0] == "join":
+            tgt_arg = w[3][0]
+            want_t = _elem(anns.get(tgt_arg))
+        else:
+            want_t = "bool"
+        got_t = _elem(anns.get("return"))
+        okt = want_t is not None and got_t == want_t
+        rep.ob(f"AR-T {name}: declared element type of the result is {want_t}", "discharged" if okt else "refuted", "typing", 0, mod, "return-type", f"declared {anns.get('return')}")
+        if not okt:
+            rep.violation(f"array-rule-type:{name}", f"{name} is declared {anns.get('return')} but returns values of element type {want_t} (a supplied column with the values the rule computes is converted to the declared type and rejected or changed)", {"obligation": f"AR-T {name}", "declared": str(anns.get("return")), "returns": want_t}, False)
         if not ok:
             rep.violation(f"array-rule:{name}", f"{name} no longer is the join of (p_id_kindergeld_empf, p_id, target, default) the contract describes: {got}", {"obligation": f"AR {name}", "got": str(got), "expected": str(w)}, False)
 
